@@ -685,8 +685,259 @@ def _o_nokey_toy(w):
     return out == "ok False False", f"{w['line']} -> {out}"
 
 
+# ---- BMS: every flag class x every address type x low-s / high-s x both arms ----------------------------------
+def _bms_expected(rf: int, typ: str, addr_compressed: bool, kid: int) -> bool:
+    """Independent reading of the BIP137 / Electrum table (module docstring of bms.py): does a signature whose true
+    recovery id is `kid`, carrying flag `rf`, speak for an address of type `typ` of this key?"""
+    if not 27 <= rf <= 42:
+        return False
+    cls = (rf - 27) // 4            # 0: p2pkh uncompressed, 1: p2pkh compressed / Electrum, 2: p2wpkh-p2sh, 3: p2wpkh
+    if (rf - 27) % 4 != kid:
+        return False                # another candidate key: its hash is another address
+    if typ == "p2pkh":
+        return cls == (1 if addr_compressed else 0)
+    if typ == "p2sh":
+        return cls in (1, 2)
+    return cls in (1, 3)
+
+
+def _o_bms_matrix(w):
+    """bms on BOTH arms: for the low-s signature bms.sign makes AND its high-s twin (s -> n - s, recovery parity
+    flipped: as valid a message signature, python-bitcoinlib makes them), every flag 24..45 against every address
+    of the key answers exactly the BIP137/Electrum table, the two arms agree, and the Sig / base64 spellings agree."""
+    from btclib.b32 import p2wpkh
+    from btclib.b58 import p2pkh, p2wpkh_p2sh, wif_from_prv_key
+    from btclib.hashes import magic_message
+    q, compressed, msg = w["q"], w["compressed"], bytes.fromhex(w["msg"])
+    n = secp256k1.n
+    wif = wif_from_prv_key(q, "mainnet", compressed)
+    addrs = {"p2pkh": p2pkh(wif)}
+    if compressed:
+        addrs["p2sh"], addrs["p2wpkh"] = p2wpkh_p2sh(wif), p2wpkh(wif)
+    Q = mult(q, secp256k1.G, secp256k1)
+    made = {}
+    for flag in (True, False):
+        with serving(flag):
+            for typ, addr in [(None, None), *addrs.items()]:
+                sig = bms.sign(msg, wif, addr)
+                base = {None: 31 if compressed else 27, "p2pkh": 31 if compressed else 27, "p2sh": 35, "p2wpkh": 39}[typ]
+                if not base <= sig.rf < base + 4:
+                    return False, f"bms.sign(addr type {typ}, serving={flag}): flag {sig.rf} outside {base}..{base + 3}"
+                made.setdefault(typ, []).append((sig.rf, sig.dsa_sig.r, sig.dsa_sig.s))
+    for typ, lst in made.items():
+        if len(set(lst)) != 1:
+            return False, f"bms.sign differs between the arms for address type {typ}: {lst}"
+    rf0, r, s = made[None][0]
+    kid = (rf0 - 27) % 4
+    if s > n // 2:
+        return False, f"bms.sign returned a high s {s}"
+    forms = {"low-s": (s, kid), "high-s": (n - s, kid ^ 1)}
+    mm = magic_message(msg)
+    for fname, (s_, kid_) in forms.items():
+        dsig = dsa.Sig(r, s_, check_validity=False)
+        # the twin is a valid ECDSA signature of the enveloped message under the signer's key, and its key_id recovers it
+        for flag in (True, False):
+            with serving(flag):
+                if not dsa.verify(mm, Q, dsig):
+                    return False, f"{fname}: dsa.verify False under the signer's key (serving={flag})"
+                if dsa.recover_pub_key(kid_, mm, dsig) != Q:
+                    return False, f"{fname}: key_id {kid_} does not recover the signer's key (serving={flag})"
+        for rf in range(24, 46):
+            for typ, addr in addrs.items():
+                want = _bms_expected(rf, typ, compressed, kid_)
+                got = {}
+                for flag in (True, False):
+                    with serving(flag):
+                        bsig = bms.Sig(rf, dsig, check_validity=False)
+                        got[flag] = bms.verify(msg, addr, bsig)
+                        try:
+                            bms.assert_as_valid(msg, addr, bsig)
+                            a = True
+                        except Exception as e:  # noqa: BLE001
+                            if _err_class(e) not in ("value", "runtime"):
+                                return False, f"{fname} flag {rf} on {typ}: assert_as_valid left through {type(e).__name__}: {e}"
+                            a = False
+                        if a != got[flag]:
+                            return False, f"{fname} flag {rf} on {typ}: verify={got[flag]} assert_as_valid={'passes' if a else 'raises'} (serving={flag})"
+                        if 27 <= rf <= 42 and rf % 5 == 0:
+                            b64 = bsig.b64encode(check_validity=False)
+                            if bms.verify(msg, addr, b64) != got[flag]:
+                                return False, f"{fname} flag {rf} on {typ}: base64 spelling answers differently (serving={flag})"
+                if got[True] != got[False]:
+                    return False, (f"bms.verify: bindings arm {got[True]}, Python arm {got[False]} (flag table says {want}) for the "
+                                   f"{fname} signature (r={r}, s={s_}), flag {rf}, {typ} address {addr}, q={q}, msg {w['msg']}")
+                if got[False] != want:
+                    return False, (f"bms.verify = {got[False]} on both arms, the flag table says {want}, for the {fname} signature "
+                                   f"(r={r}, s={s_}), flag {rf}, {typ} address {addr}, q={q}, msg {w['msg']}")
+    return True, f"flags {sorted({x[0] for v in made.values() for x in v})}"
+
+
+# ---- histories: a Signer built under one dispatch state and used under another -------------------------------
+def _o_signer_history(w):
+    """dsa.Signer built under backend state `build`, then used under the states `uses` (one signature per step):
+    every call answers (no exception), and every signature it answers is the DER of THE deterministic signature of
+    (key, digest) -- checked three independent ways: it verifies under q*G on both arms, its strict parse is low-s,
+    and it equals what the free dsa.sign_ answers on either arm."""
+    ec, hf = curve(w["curve"]), HF_ALL[w["hf"]]
+    q, grind, verify = w["q"], w["grind"], w["verify"]
+    Q = mult(q, ec.G, ec)
+    digests = [bytes.fromhex(m) for m in w["digests"]]
+    with serving(w["build"]):
+        try:
+            signer = dsa.Signer(q, ec, hf)
+        except Exception as e:  # noqa: BLE001
+            return False, f"Signer(q={q}) raised {type(e).__name__}: {e}"
+    for step, (use, m) in enumerate(zip(w["uses"], digests)):
+        with serving(use):
+            try:
+                der = signer.sign_(m, grind=grind, verify=verify) if not w.get("msg_api") else \
+                    signer.sign(m, grind=grind, verify=verify)
+            except Exception as e:  # noqa: BLE001
+                if ec.nlen <= 8 and _err_class(e) == "runtime":
+                    # a toy order: r = 0 / s = 0 happen; then the free function refuses the same digest the same way
+                    try:
+                        dsa.sign_(m if not w.get("msg_api") else hf(m).digest(), q, None, True, ec, hf, grind=grind)
+                    except Exception as e2:  # noqa: BLE001
+                        if _err_class(e2) == "runtime":
+                            continue
+                return False, (f"Signer built with serving={w['build']}, step {step} under serving={use}, "
+                               f"sign_({m.hex()}, grind={grind}, verify={verify}) raised {type(e).__name__}: {e}")
+        mh = m if not w.get("msg_api") else hf(m).digest()
+        try:
+            sig = dsa.Sig.parse(der, check_validity=False, strict=True)
+        except Exception as e:  # noqa: BLE001
+            return False, f"step {step}: the answer {der.hex()} is no strict DER: {type(e).__name__}"
+        sig = dsa.Sig(sig.r, sig.s, ec, check_validity=False)
+        if sig.s > ec.n // 2:
+            return False, f"step {step}: high s"
+        for flag in ((True, False) if ec == secp256k1 else (False,)):
+            with serving(flag):
+                if not dsa.verify_(mh, Q, sig, hf):
+                    return False, (f"Signer built with serving={w['build']}, used under serving={use} (step {step}, grind={grind}, "
+                                   f"verify={verify}): signature r={sig.r} s={sig.s} of digest {mh.hex()} does NOT verify under "
+                                   f"q*G, q={q} (checked with serving={flag})")
+                free = dsa.sign_(mh, q, None, True, ec, hf, grind=grind)
+                if (free.r, free.s) != (sig.r, sig.s):
+                    return False, (f"Signer built with serving={w['build']}, used under serving={use} (step {step}): "
+                                   f"({sig.r},{sig.s}) is not the deterministic signature dsa.sign_ gives ({free.r},{free.s}; serving={flag})")
+    with serving(w["uses"][-1]):
+        signer.wipe()
+        try:
+            signer.sign_(digests[0], grind=grind, verify=verify)
+            return False, "a wiped Signer signs"
+        except Exception as e:  # noqa: BLE001
+            if _err_class(e) != "value":
+                return False, f"a wiped Signer leaves through {type(e).__name__}"
+    return True, "ok"
+
+
+# ---- 'reproducible as RFC 6979 prescribes': an independent signer (own bits2int, own reduction, own HMAC) ------
+class StubHash:
+    """A hash-function object (constructor protocol of hashlib) that is SHA-256 except on the inputs listed in
+    `forced`, whose digest is prescribed: lets a MESSAGE reach a digest whose leading bits are n-1, n, n+1, ..."""
+    forced: dict = {}
+    digest_size = 32
+    block_size = 64
+    name = "stubsha256"
+
+    def __init__(self, data=b""):
+        self._d = bytes(data)
+
+    def update(self, data):
+        self._d += bytes(data)
+
+    def copy(self):
+        return type(self)(self._d)
+
+    def digest(self):
+        return self.forced.get(self._d) or hashlib.sha256(self._d).digest()
+
+    def hexdigest(self):
+        return self.digest().hex()
+
+
+def ecdsa_ref_sign(tok, hashfn, digest: bytes, q: int, lower_s: bool):
+    """ECDSA signing as SEC 1 4.1.3 + RFC 6979 3.2 prescribe, from the texts: e = bits2int(digest) (leftmost qlen
+    bits), reduced mod n BOTH for the equation and for bits2octets; k by `rfc6979_ref`; K = kG by the brute-force
+    group table on toy curves (btclib's mult on catalogued ones); s = k^-1 (e + r d)."""
+    ec = curve(tok)
+    n = ec.n
+    qlen = n.bit_length()
+    v = int.from_bytes(digest, "big")
+    e = (v >> (8 * len(digest) - qlen) if 8 * len(digest) > qlen else v)
+    lead = e
+    e = e - n if n <= e < 2 * n else e % n           # bits2octets: z2 = z1 mod q
+    k, refused = rfc6979_ref(q, e, n, hashfn)
+    if tok.startswith("toy:"):
+        K = table(tok).mul(k, ec.G)
+    else:
+        with serving(False):
+            K = mult(k, ec.G, ec)
+    r = K[0] % n
+    s = pow(k, -1, n) * (e + r * q) % n
+    if r == 0 or s == 0:
+        return None, lead, k
+    if lower_s and s > n // 2:
+        s = n - s
+    return (r, s), lead, k
+
+
+def _o_rfc6979_sign(w):
+    """every deterministic signing spelling answers the signature RFC 6979 prescribes for (key, digest): dsa.sign_,
+    dsa.sign_recoverable_, rfc6979_nonce_, dsa.Signer.sign_ (and the message spellings through a stub hash when a
+    message is given), against `ecdsa_ref_sign`; both arms where both serve."""
+    from btclib.ecc.rfc6979_nonce import rfc6979_nonce_
+    tok = w["curve"]
+    ec = curve(tok)
+    stub = w["hf"] == "stub"
+    hf = StubHash if stub else HF_ALL[w["hf"]]
+    q, ls = w["q"], w["lower_s"]
+    if stub:
+        StubHash.forced = {bytes.fromhex(w["msg"]): bytes.fromhex(w["m"])}
+    try:
+        m = bytes.fromhex(w["m"])
+        want, lead, k = ecdsa_ref_sign(tok, hf, m, q, ls)
+        tag = f"{tok}/{w['hf']} digest {w['m']} (leading bits {'<' if lead < ec.n else '==' if lead == ec.n else '>'} n) q={q} lower_s={ls}"
+        with serving(False):
+            got_k = rfc6979_nonce_(m, q, ec, hf)
+        if got_k != k:
+            return False, f"rfc6979_nonce_ = {got_k}, RFC 6979 prescribes {k}: {tag}"
+        for flag in ((True, False) if ec == secp256k1 and not stub else (False,)):
+            with serving(flag):
+                outs = {}
+                for name, fn in (("sign_", lambda: dsa.sign_(m, q, None, ls, ec, hf, grind=False)),
+                                 ("sign_recoverable_", lambda: dsa.sign_recoverable_(m, q, None, ls, ec, hf)[0])):
+                    try:
+                        sg = fn()
+                        outs[name] = (sg.r, sg.s)
+                    except Exception as e:  # noqa: BLE001
+                        outs[name] = None if _err_class(e) == "runtime" else f"{type(e).__name__}: {e}"
+                if ls:
+                    try:
+                        sg = dsa.Sig.parse(dsa.Signer(q, ec, hf).sign_(m, grind=False), check_validity=False)
+                        outs["Signer.sign_"] = (sg.r, sg.s)
+                    except Exception as e:  # noqa: BLE001
+                        outs["Signer.sign_"] = None if _err_class(e) == "runtime" else f"{type(e).__name__}: {e}"
+                if stub:
+                    msg = bytes.fromhex(w["msg"])
+                    try:
+                        sg = dsa.sign(msg, q, None, ls, ec, hf, grind=False)
+                        outs["sign(msg)"] = (sg.r, sg.s)
+                        if not dsa.verify(msg, mult(q, ec.G, ec), sg, hf):
+                            return False, f"dsa.verify refuses dsa.sign's own signature: {tag}"
+                    except Exception as e:  # noqa: BLE001
+                        outs["sign(msg)"] = None if _err_class(e) == "runtime" else f"{type(e).__name__}: {e}"
+                for name, got in outs.items():
+                    if got != want:
+                        return False, f"{name} = {got}, RFC 6979 + SEC 1 prescribe {want} (nonce {k}): {tag} (serving={flag})"
+    finally:
+        StubHash.forced = {}
+    return True, f"lead{'<' if lead < ec.n else '=' if lead == ec.n else '>'}n"
+
+
 ORACLES = {k: _safe(v) for k, v in {
-    "nokey.toy": _o_nokey_toy,
+    "nokey.toy": _o_nokey_toy, "bms.matrix": _o_bms_matrix, "signer.history": _o_signer_history,
+    "rfc6979.sign": _o_rfc6979_sign,
     "recover.valid_key": _o_recover_valid_key, "noncanon.toy": _o_noncanon_toy,
     "recoverall.valid_keys": _o_recoverall_valid, "rfc6979.ref": _o_rfc6979_ref,
     "chain.toy": _o_chain_toy, "sec1.toy": _o_sec1_toy, "chain.pub": _o_chain_pub,
@@ -1122,6 +1373,72 @@ def run(ctx):  # noqa: C901, PLR0912, PLR0915
             raise common.HarnessError(f"rfc6979.ref: no multi-block retry drawn on {cname}/{hname}")
     ctx.stream("rfc6979.cat", nl)
 
+    # ---- 'reproducible as RFC 6979 prescribes' against an independent SIGNER (own bits2int and reduction): toy
+    # curves with every value of the digest's leading octet (leading nlen bits < n, == n, > n all occur), catalogued
+    # curves with crafted digests n-1, n, n+1, 2^nlen-1 (and messages reaching them through a stub hash object)
+    def lead_class(ec, m):
+        v = int.from_bytes(m, "big")
+        e = v >> (8 * len(m) - ec.nlen) if 8 * len(m) > ec.nlen else v
+        return "lead<n-1" if e < ec.n - 1 else "lead=n-1" if e == ec.n - 1 else "lead=n" if e == ec.n else "lead>n"
+    for name in toys:
+        tok = token(name)
+        ec = curve(tok)
+        n = ec.n
+        tail = common.rand_bytes(rng, 31)
+        shift = 8 - ec.nlen
+        edge = sorted({(v << shift) | t for v in (0, 1, n - 1, n, n + 1, 2 ** ec.nlen - 1) if v < 2 ** ec.nlen
+                       for t in (0, (1 << shift) - 1)})
+        q0 = rng.randrange(1, n)
+        for b in range(256):
+            for q in ([q0] if b not in edge else range(1, n)):
+                for ls in (False, True):
+                    hfn = "sha256" if (b + q) % 5 else "sha1"
+                    m = bytes([b]) + tail[:HF_ALL[hfn]().digest_size - 1]
+                    ctx.count("rfc6979.sign", f"toy {lead_class(ec, m)}")
+                    ctx.check("rfc6979.sign", {"curve": tok, "hf": hfn, "m": m.hex(), "q": q, "lower_s": ls})
+    for cname, hname in [("secp256k1", "sha256"), ("secp256k1", "stub"), ("secp256r1", "sha256"), ("secp256r1", "stub"),
+                         ("secp112r2", "sha256"), ("secp384r1", "sha384"), ("secp224k1", "sha256"), ("secp160r1", "sha1"),
+                         ("secp521r1", "sha512")][: None if thorough else 6]:
+        ec = curve(cname)
+        size = 32 if hname == "stub" else HF_ALL[hname]().digest_size
+        shift = max(0, 8 * size - ec.nlen)
+        leads = [ec.n - 1, ec.n, ec.n + 1, 2 ** ec.nlen - 1, ec.n + rng.randrange(2, 2 ** ec.nlen - ec.n), rng.randrange(ec.n), 0]
+        for v in leads:
+            if (v << shift).bit_length() > 8 * size:
+                continue   # the digest is shorter than the order: its value cannot reach n
+            for tailbits in ((0, rng.getrandbits(shift)) if shift else (0,)):
+                m = ((v << shift) | tailbits).to_bytes(size, "big")
+                for q in _scalars(rng, ec.n, ctx.n(2, 6)):
+                    for ls in (False, True):
+                        w = {"curve": cname, "hf": hname, "m": m.hex(), "q": q, "lower_s": ls}
+                        if hname == "stub":
+                            w["msg"] = common.rand_bytes(rng, rng.choice([0, 1, 40])).hex()
+                        ctx.count("rfc6979.sign", f"{cname}/{hname} {lead_class(ec, m)}")
+                        ctx.check("rfc6979.sign", w)
+    for cls in ("toy lead=n", "toy lead>n", "toy lead=n-1", "secp256k1/sha256 lead=n", "secp256k1/stub lead=n", "secp256r1/stub lead=n"):
+        if not ctx.hist.get("rfc6979.sign", {}).get(cls):
+            raise common.HarnessError(f"rfc6979.sign: class `{cls}` never drawn")
+
+    # ---- histories (exhaustive, short): a dsa.Signer built under one dispatch state, used under others --------------
+    for cname, hname, steps in [("secp256k1", "sha256", 2), ("secp256k1", "sha1", 1), ("secp256r1", "sha256", 1),
+                                (token("t13_11"), "sha256", 1)]:
+        ec = curve(cname)
+        import itertools
+        for build in (True, False):
+            for uses in itertools.product((True, False), repeat=steps):
+                for verify in (True, False):
+                    for grind in (True, False):
+                        for msg_api in ((False, True) if steps == 2 else (False,)):
+                            size = HF_ALL[hname]().digest_size
+                            ds = [common.rand_bytes(rng, size if not msg_api else rng.choice([0, 8, 33])) for _ in uses]
+                            if ec.nlen <= 8:
+                                ds = [bytes([rng.randrange(256)]) + d[1:] for d in ds]
+                            ctx.count("signer.history", f"{'secp256k1/sha256' if steps == 2 else 'python-arm only'}: "
+                                                        f"build={'on' if build else 'off'} uses={''.join('1' if u else '0' for u in uses)}")
+                            ctx.check("signer.history", {"curve": cname, "hf": hname, "q": _scalars(rng, ec.n, 1)[0],
+                                                         "build": build, "uses": list(uses), "verify": verify, "grind": grind,
+                                                         "msg_api": msg_api, "digests": [d.hex() for d in ds]})
+
     # ---- DER -----------------------------------------------------------------------------------
     cases = der_cases(rng, ctx.n(3000))
     dlines = []
@@ -1163,4 +1480,8 @@ def run(ctx):  # noqa: C901, PLR0912, PLR0915
     for _ in range(ctx.n(6, 60)):
         ctx.check("bms.chain", {"q": rng.randrange(1, secp256k1.n), "compressed": rng.random() < 0.6,
                                 "msg": common.rand_bytes(rng, rng.choice([0, 1, 20, 252, 253, 300])).hex()})
+    # every flag 24..45 x every address of the key x low-s / high-s twin x both arms, against the table of the docstring
+    for i in range(ctx.n(4, 40)):
+        ctx.check("bms.matrix", {"q": _scalars(rng, secp256k1.n, 1)[0], "compressed": i % 4 != 3,
+                                 "msg": common.rand_bytes(rng, rng.choice([0, 1, 20, 252, 253, 300])).hex()})
     batch.flush()
